@@ -127,12 +127,38 @@ pub fn gen(rng: &mut Rng, idx: usize, n: usize, thorough: bool) -> String {
         rng.shuffle(&mut labels[..nleaves.max(1)]);
     }
     labels.truncate(nleaves);
-    let vt = match rng.below(8) {
+    let mut vt = match rng.below(8) {
         0 => vt_right(&labels),
         1 | 2 => vt_left(&labels),
         3 | 4 => vt_balanced(&labels),
         _ => vt_random(rng, &labels),
     };
+    // mixed-shape family: a binary decision (vtree node with a leaf on the left) above a general
+    // node (its right child is not right-linear), inside the prime side of the root, with random
+    // truth tables over the inner variables: ((a ((b c) d)) rest) and relatives.  Such diagrams
+    // fold one BinarySDD in both polarities above an SddOr with three or more elements.
+    let mixed = nleaves >= 5 && rng.chance(1, 3);
+    let mut inner: Vec<u64> = vec![];
+    if mixed {
+        let a = labels[0];
+        let k = if nleaves >= 6 && rng.coin() { 4 } else { 3 };
+        inner = labels[1..1 + k].to_vec();
+        let m = if k == 3 {
+            if rng.chance(2, 3) {
+                VT::N(Box::new(VT::N(Box::new(VT::L(inner[0])), Box::new(VT::L(inner[1])))), Box::new(VT::L(inner[2])))
+            } else {
+                vt_random(rng, &inner)
+            }
+        } else if rng.coin() {
+            vt_balanced(&inner)
+        } else {
+            vt_left(&inner)
+        };
+        let left = VT::N(Box::new(VT::L(a)), Box::new(m));
+        let rest = &labels[1 + k..];
+        let r = if rest.len() == 1 { VT::L(rest[0]) } else { vt_random(rng, rest) };
+        vt = if rng.chance(3, 4) { VT::N(Box::new(left), Box::new(r)) } else { VT::N(Box::new(r), Box::new(left)) };
+    }
     let maxops = if thorough { 34 } else { 24 };
     let mut nops = 3 + (frac * maxops) / 100 + rng.range(0, 4);
     if !compress {
@@ -156,8 +182,58 @@ pub fn gen(rng: &mut Rng, idx: usize, n: usize, thorough: bool) -> String {
         s.push(' ');
         s.push_str(&op);
     }
+    if mixed {
+        // literals of all variables, random truth tables G1, G2 over the inner variables (Shannon
+        // expansion with ite), B = a op G, f = B <=> e / B xor e / ite(B, e, G2)
+        let base = pool.len();
+        macro_rules! emit {
+            ($op:expr, $pool:expr, $s:expr) => {{
+                let op: String = $op;
+                let (r, _) = exec_op(builder, &pool, &toks(&op));
+                pool.push(r);
+                s.push(' ');
+                s.push_str(&op);
+                pool.len() - 1
+            }};
+        }
+        for l in &labels {
+            emit!(format!("v {l} 1"), pool, s);
+        }
+        let lit_of = |l: u64| base + labels.iter().position(|x| *x == l).unwrap();
+        let last = lit_of(*inner.last().unwrap());
+        let nlast = emit!(format!("n {last}"), pool, s);
+        let tt = emit!("t".to_string(), pool, s);
+        let ff = emit!("f".to_string(), pool, s);
+        let mut gs = vec![];
+        for _ in 0..2 {
+            let depth = inner.len() - 1;
+            let mut layer: Vec<usize> = (0..(1usize << depth)).map(|_| *rng.pick(&[last, nlast, tt, ff, last, nlast])).collect();
+            for d in (0..depth).rev() {
+                let x = lit_of(inner[d]);
+                let mut next = vec![];
+                for pair in layer.chunks(2) {
+                    next.push(emit!(format!("i {x} {} {}", pair[0], pair[1]), pool, s));
+                }
+                layer = next;
+            }
+            gs.push(layer[0]);
+        }
+        let a = lit_of(labels[0]);
+        let bnode = match rng.below(3) {
+            0 => emit!(format!("a {a} {}", gs[0]), pool, s),
+            1 => emit!(format!("o {a} {}", gs[0]), pool, s),
+            _ => emit!(format!("i {a} {} {}", gs[0], gs[1]), pool, s),
+        };
+        let e = lit_of(*labels.last().unwrap());
+        match rng.below(3) {
+            0 => emit!(format!("q {bnode} {e}"), pool, s),
+            1 => emit!(format!("x {bnode} {e}"), pool, s),
+            _ => emit!(format!("i {bnode} {e} {}", gs[1]), pool, s),
+        };
+    }
     // edge stream: a few cases whose targets are constants / literals only
-    let tiny = rng.chance(1, 30);
+    let tiny = rng.chance(1, 30) && !mixed;
+    let nops = if mixed { pool.len() + rng.range(0, 3) } else { nops };
     while pool.len() < nops && !tiny {
         let len = pool.len();
         let mut chosen: Option<(String, SddPtr)> = None;
